@@ -153,7 +153,12 @@ def determined(pname, ppos, rpos, pure_translation):
     out = []
     for x in rpos:
         x = np.array(x, dtype=float)
-        if pname.split("@")[0] not in COLLINEAR:
+        degenerate = n < 3 or pname.split("@")[0] in COLLINEAR
+        if not degenerate:
+            far = max(((i, j) for i in range(n) for j in range(n)), key=lambda ij: np.linalg.norm(P[ij[0]] - P[ij[1]]))
+            u0 = P[far[1]] - P[far[0]]
+            degenerate = all(np.linalg.norm(np.cross(y - P[far[0]], u0)) / max(np.linalg.norm(u0), 1e-12) < 1e-9 for y in P)
+        if not degenerate:
             out.append(True)
         elif n == 1:
             out.append(pure_translation or np.abs(x - P[0]).max() < 1e-9)
@@ -448,17 +453,22 @@ def make_case(rng, tier="quick", cell_kind=None, pname=None, boundary="default",
         fr = np.array(case["pos"], dtype=float).dot(np.linalg.inv(cmf)) % 1.0
         fr[fr >= 1.0] = 0.0
         case["pos"] = [[float(v) for v in x] for x in fr.dot(cmf)]
-    # unwrap (OFF by default, see the report of the guard probe): atoms given up to one cell OUTSIDE the unit cell, each atom
-    # shifted on its own. The search only looks at the 27 neighbouring images of every atom and starts from "home" atoms, so
-    # two atoms of one occurrence that end up in non-adjacent cells are silently not matched — pending a ruling.
+    # unwrap: in ~20 % of the structures the atoms are GIVEN outside the unit cell, each atom shifted on its own by up to two
+    # cells per direction (unwrapped trajectories, data files that do not wrap). Atoms sitting on a cell face (a fractional
+    # coordinate within 1e-6 of an integer) stay where they are.
     if unwrap is None:
-        unwrap = False
+        unwrap = rng.random() < 0.2
     if unwrap:
         cm = np.array(case["cell"], dtype=float)
+        cminv = np.linalg.inv(cm)
         newpos = []
         for x in case["pos"]:
-            mult = np.array([rng.choice([-1, 0, 0, 1]) for _ in range(3)])
-            newpos.append([float(v) for v in (np.array(x, dtype=float) + mult.dot(cm))])
+            x = np.array(x, dtype=float)
+            f = x.dot(cminv)
+            mult = np.array([rng.choice([-2, -1, 0, 0, 0, 1, 2]) for _ in range(3)])
+            if np.abs(f - np.round(f)).min() < 1e-6:
+                mult = np.zeros(3)
+            newpos.append([float(v) for v in (x + mult.dot(cm))])
         case["pos"] = newpos
     sj = findlib.struct_json(case["elems"], case["pos"], case["cell"], charges=charges, groups=groups)
     pj = pattern_atoms_json(pel, ppos)
@@ -556,6 +566,77 @@ def make_star_case(rng, tier="quick"):
             "info": {"cell": cell_kind, "pattern": pname, "boundary": "None", "rp": "star", "copies": n - nstars, "decoys": [],
                      "atol": 0.05, "distorted": "none", "exact180": False, "tilt_over_atol": [], "flip": None,
                      "bent_decoy_h_over_atol": None, "star": True}}
+
+
+INT_PATTERNS = [
+    (["C", "N", "O", "F"], [(0, 0, 0), (1, 0, 0), (0, 2, 0), (0, 0, 3)]),
+    (["C", "O"], [(0, 0, 0), (0, 1, 0)]),
+    (["N", "C", "H"], [(0, 0, 0), (1, 1, 0), (3, 1, 0)]),
+    (["Si", "O", "O", "H"], [(1, 1, 1), (2, 1, 1), (1, 3, 1), (1, 1, 2)]),
+]
+INT_ROTATIONS = [np.array(m) for m in (
+    [[1, 0, 0], [0, 1, 0], [0, 0, 1]], [[0, -1, 0], [1, 0, 0], [0, 0, 1]], [[-1, 0, 0], [0, -1, 0], [0, 0, 1]],
+    [[1, 0, 0], [0, 0, -1], [0, 1, 0]], [[0, 0, 1], [0, 1, 0], [-1, 0, 0]], [[-1, 0, 0], [0, 1, 0], [0, 0, -1]],
+    [[0, 1, 0], [0, 0, 1], [1, 0, 0]])]
+
+
+def make_int_case(rng, tier="quick"):
+    """everything typed with WHOLE numbers: integer cell rows (orthorhombic or tilted), structure atoms on integer
+    coordinates (exact copies in axis-permuting orientations), search pattern with integer coordinates, replacement with
+    integer or float coordinates. The objects are to be constructed from plain ints (case["int_typed"])."""
+    pel, ppos0 = rng.choice(INT_PATTERNS)
+    ppos0 = np.array(ppos0)
+    kind = rng.choice(["ortho", "ortho", "tri+", "tri-"])
+    a, b, c = [rng.randint(11, 15) for _ in range(3)]
+    if kind == "ortho":
+        cell = np.array([[a, 0, 0], [0, b, 0], [0, 0, c]])
+    else:
+        sg = 1 if kind == "tri+" else -1
+        cell = np.array([[a, 0, 0], [sg * rng.randint(1, 3), b, 0], [sg * rng.randint(1, 3), rng.choice([1, -1]) * rng.randint(1, 3), c]])
+    cellf = cell.astype(float)
+    cinv = np.linalg.inv(cellf)
+    elems, pos = [], []
+    for _ in range(rng.randint(1, 3)):
+        for attempt in range(100):
+            R = rng.choice(INT_ROTATIONS)
+            origin = np.array([rng.randint(-3, 16) for _ in range(3)])
+            pts = [origin + R.dot(p - ppos0[0]) for p in ppos0]
+            ok = True
+            for q in pts:
+                for x in pos:
+                    f = (q - x).astype(float).dot(cinv)
+                    f -= np.round(f)
+                    if np.linalg.norm(f.dot(cellf)) < 3.5:
+                        ok = False
+            if ok:
+                for e, q in zip(pel, pts):
+                    elems.append(e); pos.append(q)
+                break
+    for attempt in range(20):
+        q = np.array([rng.randint(0, 10) for _ in range(3)])
+        if all(np.linalg.norm(((q - x).astype(float).dot(cinv) - np.round((q - x).astype(float).dot(cinv))).dot(cellf)) >= 3.5 for x in pos):
+            elems.append("H"); pos.append(q)
+            break
+    # atoms are left where they are (some outside the unit cell: integer structures are not wrapped either)
+    shift = np.array([rng.randint(-3, 3) for _ in range(3)])
+    ppos = [[int(v) for v in (p + shift)] for p in ppos0]
+    int_rp = rng.random() < 0.6
+    rel, rpos, shared = build_replacement(rng, list(pel), [[float(v) for v in p] for p in ppos],
+                                          "int_new" if int_rp else rng.choice(["keep_all+far", "subst", "all_new"]))
+    tags = [100.0 + k + 0.5 for k in range(len(rel))]
+    n = len(elems)
+    sj = findlib.struct_json(elems, [[int(v) for v in x] for x in pos], [[int(v) for v in row] for row in cell],
+                             charges=[(i + 1) / 16.0 for i in range(n)], groups=[rng.randint(0, 3) for _ in range(n)])
+    pj = pattern_atoms_json(pel, ppos)
+    rj = pattern_atoms_json(rel, rpos, charges=tags)
+    for a_ in rj["atoms"]:
+        a_["g"] = 7
+    return {"op": "c05", "hints": [None, None, None], "hint_spelling": "plain", "int_rp": bool(int_rp), "int_typed": True,
+            "s": sj, "p": pj, "r": rj, "atol": 0.05, "replace_all": rng.random() < 0.2, "seed": rng.randrange(10 ** 6),
+            "shared": shared, "tags": tags,
+            "info": {"cell": kind, "pattern": "int:" + "".join(pel), "boundary": "None", "rp": "int_new" if int_rp else "float",
+                     "copies": n // len(pel), "decoys": [], "atol": 0.05, "distorted": "none", "exact180": False,
+                     "tilt_over_atol": [], "flip": None, "bent_decoy_h_over_atol": None, "int_typed": True}}
 
 
 def rand_motion(rng, pure_translation=False):
